@@ -36,7 +36,12 @@ CLAIMED['C08'] = dict(text='PutQ.tla models the tallies (bubbling rule), check()
              ref='DESIGN.md section 5 C08', technique='TLA+ PutQ module: TLC exhaustive enumeration of store-phase runs + replay on a real writer + TLC trace validation')
 CLAIMED['C17'] = dict(text='PutQ.tla carries the local conflict rule table (LocalRule) and the majority rule; TLC checks the rule table over all item relations; the harness places a second put_mutable at each phase of the first one (during its lookup, in its store phase, after completion) for every relation (same item, seq lower/equal/higher, cas none/0/1/2) on a real node and TLC judges both callers\' results, that each gets exactly one, and that the replaced query leaks no caller; 301/302 majorities and non-mutable kinds are covered by the store-phase runs.',
              ref='DESIGN.md section 5 C17', technique='TLA+ PutQ module: rule table checked by TLC + phase-placed conflict scenarios on the real node + TLC trace validation')
-NOTE = {'C08': PUTQ_NOTE, 'C17': PUTQ_NOTE, 'C09': 'Trusted base: TLC; the H4 snapshot projection; the settle-tick argument (state is a fixpoint of input-less ticks at a frozen instant). Replies to expired requests are only required to leave query/table state unchanged.', 'C10': 'Trusted base: TLC; the harness bencode/KRPC codec (independent of serde_bencode); the H3 WireMessage mirror of the crate-private Message.', 'C05': 'Trusted base: TLC; catch_unwind / thread-death detection in the simulator; the shape space is the bounded neighbourhood stated in MC_KrpcShapes plus seeded random mutations - not all byte strings up to the MTU.', 'C16': 'Trusted base: TLC; the lock-step simulator (production actor::run thread); fake peers signing authentic items; arrival order read from the simulator datagram log.', 'C11': RT_NOTE, 'C12': RT_NOTE, 'C19': 'Trusted base: TLC, CommunityModules Bitwise; the harness char->code point conversion. The 2^28 sweep is a Rust comparison against a reference that TLC validates on sampled vectors, not a TLC verdict.', 'C03': SERVER_NOTE, 'C04': SERVER_NOTE, 'C15': SERVER_NOTE + ' CRC32C token forgery by linearity is out of scope (design matter).'}
+Q_NOTE = 'Trusted base: TLC; the simulator (virtual clock, fixed tick cadence 250 ms); fake peers; H4 snapshots. The exhaustive design-level result is for one target, 3 peers, K = 2, up to 3 overlapping calls (MC_Query_*); on the real code the evidence is the enumerated fault plans.'
+CLAIMED['C06'] = dict(text='Query.tla models one client node as the chain of state functions of Actor::tick (API message, receive, check puts, visit closest, check lookups, start puts, cleanup, deliver) with peers that answer, lose or age requests; TLC checks NotStuck, ExactlyOne and NoLeak as invariants and Terminates as a temporal property under weak fairness for every interleaving of 2-3 overlapping calls on one target. TLC also enumerates fault plans (every single fault of every reply index, pairs in the thorough tier) for 15 call scenarios; each plan runs on a real node (inline and through the production run loop) and TLC judges outcome counts, termination and the bound (contacted + 2) x (Tmax + cadence).',
+             ref='DESIGN.md section 5 C06', technique='TLA+ Query module: TLC safety + liveness MC; TLC-enumerated fault plans replayed on the real node; TLC trace validation')
+CLAIMED['C20'] = dict(text='NoLeak is an invariant of Query.tla (exhaustive for overlapping calls) and is evaluated by TLC on the H4 snapshot taken after a quiet period at the end of every fault-plan run on the real node; capacity bounds and LRU eviction order of the stores come from the Server module (exhaustive for capacities 1-2, random histories with capacities 1-3 validated by TLC); the statistics mirror (DHT size / responders / subnets = aggregate over cached lookups, never negative) and the 1000-entry cache cap are checked by TLC on snapshots taken while more than 1000 distinct lookups of all kinds roll the cache.',
+             ref='DESIGN.md section 5 C20', technique='TLA+ Query + Server modules: TLC MC; TLC trace validation of H4 snapshots at quiescence, cache/statistics snapshots and store projections')
+NOTE = {'C06': Q_NOTE, 'C20': Q_NOTE + ' Float sums of the statistics are compared in the harness with relative tolerance 1e-6; TLC compares the integer counters exactly.', 'C08': PUTQ_NOTE, 'C17': PUTQ_NOTE, 'C09': 'Trusted base: TLC; the H4 snapshot projection; the settle-tick argument (state is a fixpoint of input-less ticks at a frozen instant). Replies to expired requests are only required to leave query/table state unchanged.', 'C10': 'Trusted base: TLC; the harness bencode/KRPC codec (independent of serde_bencode); the H3 WireMessage mirror of the crate-private Message.', 'C05': 'Trusted base: TLC; catch_unwind / thread-death detection in the simulator; the shape space is the bounded neighbourhood stated in MC_KrpcShapes plus seeded random mutations - not all byte strings up to the MTU.', 'C16': 'Trusted base: TLC; the lock-step simulator (production actor::run thread); fake peers signing authentic items; arrival order read from the simulator datagram log.', 'C11': RT_NOTE, 'C12': RT_NOTE, 'C19': 'Trusted base: TLC, CommunityModules Bitwise; the harness char->code point conversion. The 2^28 sweep is a Rust comparison against a reference that TLC validates on sampled vectors, not a TLC verdict.', 'C03': SERVER_NOTE, 'C04': SERVER_NOTE, 'C15': SERVER_NOTE + ' CRC32C token forgery by linearity is out of scope (design matter).'}
 NA_REASON = {}
 
 def main():
